@@ -1,8 +1,27 @@
 import DryocVerif.Model.SecretStream
 import DryocVerif.Model.SecretBox
 import DryocVerif.Proofs.SecretStream
+import DryocVerif.Properties.C02
+import DryocVerif.Properties.C06
+import DryocVerif.Properties.C10
+import DryocVerif.Properties.C16
+/-
+C04 — no attacker-facing function panics.
+
+Every function that consumes bytes an attacker controls (ciphertexts, sealed boxes, signed messages,
+password-hash strings, serialised containers), for ALL inputs and every instantiation of the
+primitives, returns `Ok` or `Err`; where a classic (caller-buffer) form CAN panic, the exact
+condition is stated (`*_panic_iff`) and it is a condition on the CALLER's buffer only — checked before
+any attacker byte is looked at.
+
+* secretstream `pull` / `push` / `DryocStream`: proved here;
+* secretbox / box / sealed box / object layer: re-exported from C02 (statements written out);
+* signatures: re-exported from C06; password-hash strings: from C10; serde: from C16.
+-/
 namespace DryocVerif.Properties.C04
 open DryocVerif
+
+/-! ## secretstream -/
 
 /-- the classic stream pull never panics, whatever the ciphertext, associated data, buffer and state -/
 theorem pull_never_panics (P : Model.SecretStream.Prims) (s : Model.SecretStream.State) (m : Bytes) (tagv : UInt8) (ct ad : Bytes) :
@@ -49,5 +68,210 @@ theorem objPull_never_panics (P : Model.SecretStream.Prims) (s : Model.SecretStr
     ∃ r, r = Model.SecretStream.pull P s (zeros (ct.length - 17)) 0 ct ad ∧ r.res = .ok (ct.length - 17) ∧
       Model.SecretStream.objPull P s ct ad = (.ok (r.buf, r.tag), r.st) :=
   Proofs.SecretStream.objPull_cases P s ct ad
+
+/-! ## secretbox / box / sealed box: classic forms (re-exported from C02)
+
+The four forms that take a separate message buffer panic (slice bounds) exactly when THAT buffer is
+too small for the ciphertext's payload; this is decided before the authenticator is looked at and does
+not depend on any ciphertext byte, only on its length.  In-place and sealed forms cannot panic. -/
+
+section Box
+open DryocVerif.Model.SecretBox
+
+theorem openDetachedInplace_never_panics (P : Prims) (data mac n k : Bytes) :
+    (openDetachedInplace P data mac n k).res ≠ .panic :=
+  C02.openDetachedInplace_never_panics P data mac n k
+
+/-- caller contract of `crypto_secretbox_open_detached`: the message buffer holds the ciphertext -/
+theorem openDetached_panic_iff (P : Prims) (buf mac c n k : Bytes) :
+    (openDetached P buf mac c n k).res = .panic ↔ buf.length < c.length :=
+  C02.openDetached_panic_iff P buf mac c n k
+
+/-- caller contract of `crypto_secretbox_open_easy`: the message buffer holds `ct.len() - 16` bytes
+(a ciphertext shorter than 16 bytes is an `Err`, never a panic) -/
+theorem openEasy_panic_iff (P : Prims) (buf ct n k : Bytes) :
+    (openEasy P buf ct n k).res = .panic ↔ 16 ≤ ct.length ∧ buf.length < ct.length - 16 :=
+  C02.openEasy_panic_iff P buf ct n k
+
+/-- … so with a buffer sized as documented no ciphertext makes it panic -/
+theorem openEasy_never_panics_sized (P : Prims) (buf ct n k : Bytes) (hbuf : ct.length - 16 ≤ buf.length) :
+    (openEasy P buf ct n k).res ≠ .panic := by
+  intro h
+  have := (C02.openEasy_panic_iff P buf ct n k).mp h
+  omega
+
+theorem openDetached_never_panics_sized (P : Prims) (buf mac c n k : Bytes) (hbuf : c.length ≤ buf.length) :
+    (openDetached P buf mac c n k).res ≠ .panic := by
+  intro h
+  have := (C02.openDetached_panic_iff P buf mac c n k).mp h
+  omega
+
+theorem openEasyInplace_never_panics (P : Prims) (ct n k : Bytes) :
+    (openEasyInplace P ct n k).res ≠ .panic :=
+  C02.openEasyInplace_never_panics P ct n k
+
+theorem boxOpenDetachedInplace_never_panics (P : Prims) (data mac n pk sk : Bytes) :
+    (boxOpenDetachedInplace P data mac n pk sk).res ≠ .panic :=
+  C02.boxOpenDetachedInplace_never_panics P data mac n pk sk
+
+theorem boxOpenDetached_panic_iff (P : Prims) (buf mac c n pk sk : Bytes) :
+    (boxOpenDetached P buf mac c n pk sk).res = .panic ↔ buf.length < c.length :=
+  C02.boxOpenDetached_panic_iff P buf mac c n pk sk
+
+theorem boxOpenEasy_panic_iff (P : Prims) (buf ct n pk sk : Bytes) :
+    (boxOpenEasy P buf ct n pk sk).res = .panic ↔ 16 ≤ ct.length ∧ buf.length < ct.length - 16 :=
+  C02.boxOpenEasy_panic_iff P buf ct n pk sk
+
+theorem boxOpenEasy_never_panics_sized (P : Prims) (buf ct n pk sk : Bytes)
+    (hbuf : ct.length - 16 ≤ buf.length) : (boxOpenEasy P buf ct n pk sk).res ≠ .panic := by
+  intro h
+  have := (C02.boxOpenEasy_panic_iff P buf ct n pk sk).mp h
+  omega
+
+theorem boxOpenEasyInplace_never_panics (P : Prims) (ct n pk sk : Bytes) :
+    (boxOpenEasyInplace P ct n pk sk).res ≠ .panic :=
+  C02.boxOpenEasyInplace_never_panics P ct n pk sk
+
+/-- `crypto_box_seal_open`: a message buffer of the wrong size is an `Err`; no panic is possible -/
+theorem sealOpen_never_panics (P : Prims) (buf ct rpk rsk : Bytes) :
+    (sealOpen P buf ct rpk rsk).res ≠ .panic :=
+  C02.sealOpen_never_panics P buf ct rpk rsk
+
+/-! ## object layer: parsing and decrypting attacker bytes never panics -/
+
+/-- `DryocSecretBox::from_bytes` -/
+theorem fromBytes_never_panics (bs : Bytes) : fromBytes bs ≠ .panic := by
+  unfold fromBytes; split <;> simp
+
+/-- `DryocBox::from_sealed_bytes` -/
+theorem fromSealedBytes_never_panics (bs : Bytes) : fromSealedBytes bs ≠ .panic := by
+  unfold fromSealedBytes; split <;> simp
+
+/-- … and both reject what is shorter than the overhead -/
+theorem fromBytes_short (bs : Bytes) (h : bs.length < 16) : fromBytes bs = .err :=
+  C02.short_rejected_fromBytes bs h
+
+theorem fromSealedBytes_short (bs : Bytes) (h : bs.length < 48) : fromSealedBytes bs = .err :=
+  C02.short_rejected_fromSealedBytes bs h
+
+/-- `DryocSecretBox::decrypt`, for every box (any tag length, any data) -/
+theorem objDecrypt_never_panics (P : Prims) (b : Box) (n k : Bytes) : objDecrypt P b n k ≠ .panic :=
+  C02.objDecrypt_never_panics P b n k
+
+/-- `DryocBox::decrypt` -/
+theorem objBoxDecrypt_never_panics (P : Prims) (b : Box) (n pk sk : Bytes) :
+    objBoxDecrypt P b n pk sk ≠ .panic :=
+  C02.objDecrypt_never_panics P b n _
+
+/-- `DryocBox::unseal` -/
+theorem objUnseal_never_panics (P : Prims) (b : Box) (rpk rsk : Bytes) : objUnseal P b rpk rsk ≠ .panic :=
+  C02.objUnseal_never_panics P b rpk rsk
+
+/-- the whole attacker-facing pipeline of the object layer, bytes in, message or `Err` out -/
+theorem fromBytes_then_decrypt_never_panics (P : Prims) (bs n k : Bytes) :
+    (match fromBytes bs with
+     | .ok b => objDecrypt P b n k
+     | .err => .err
+     | .panic => .panic) ≠ .panic := by
+  cases h : fromBytes bs with
+  | ok b => exact C02.objDecrypt_never_panics P b n k
+  | err => simp
+  | panic => exact absurd h (fromBytes_never_panics bs)
+
+theorem fromSealedBytes_then_unseal_never_panics (P : Prims) (bs rpk rsk : Bytes) :
+    (match fromSealedBytes bs with
+     | .ok b => objUnseal P b rpk rsk
+     | .err => .err
+     | .panic => .panic) ≠ .panic := by
+  cases h : fromSealedBytes bs with
+  | ok b => exact C02.objUnseal_never_panics P b rpk rsk
+  | err => simp
+  | panic => exact absurd h (fromSealedBytes_never_panics bs)
+
+end Box
+
+/-! ## signatures (re-exported from C06)
+
+`verifyDetached` is a `Bool`-valued function of the model (total by construction: `Ok`/`Err` only);
+the forms with a caller buffer and the byte parser are: -/
+
+section Sign
+open DryocVerif.Model.Sign
+
+/-- `crypto_sign_open` (`n` = length of the caller's message buffer): a wrong buffer size, a short
+input or a bad signature is an `Err` -/
+theorem signOpen_never_panics (H : Bytes → Bytes) (n : Nat) (sm pk : Bytes) :
+    signOpen H n sm pk ≠ .panic :=
+  C06.signOpen_never_panics H n sm pk
+
+/-- `SignedMessage::from_bytes` -/
+theorem signedFromBytes_never_panics (bs : Bytes) : Model.Sign.fromBytes bs ≠ .panic := by
+  unfold Model.Sign.fromBytes; split <;> simp
+
+theorem signedFromBytes_short (bs : Bytes) (h : bs.length < 64) : Model.Sign.fromBytes bs = .err :=
+  C06.fromBytes_short bs h
+
+/-- `from_bytes` then `verify`: bytes in, `Bool` out -/
+theorem signedFromBytes_then_verify_total (H : Bytes → Bytes) (bs pk : Bytes) :
+    (match Model.Sign.fromBytes bs with
+     | .ok (sig, m) => Outcome.ok (verifyDetached H sig m pk false)
+     | .err => .err
+     | .panic => .panic) ≠ .panic := by
+  cases h : Model.Sign.fromBytes bs with
+  | ok r => simp
+  | err => simp
+  | panic => exact absurd h (signedFromBytes_never_panics bs)
+
+/-- (the signing side, for completeness) -/
+theorem signCombined_never_panics (H : Bytes → Bytes) (n : Nat) (msg sk : Bytes) :
+    signCombined H n msg sk ≠ .panic :=
+  C06.signCombined_never_panics H n msg sk
+
+end Sign
+
+/-! ## password-hash strings (re-exported from C10): any `&str` -/
+
+section PwhashStr
+open DryocVerif.Model.PwhashStr
+
+/-- `Pwhash::parse_encoded_pwhash` -/
+theorem parse_never_panics (s : Str) : parse s ≠ .panic := C10.parse_never_panics s
+
+/-- `crypto_pwhash_str_needs_rehash` -/
+theorem needsRehash_never_panics (s : Str) (o l : Nat) : needsRehash s o l ≠ .panic :=
+  C10.needsRehash_never_panics s o l
+
+/-- `crypto_pwhash_str_verify`, for every Argon2 that does not itself panic -/
+theorem strVerify_never_panics
+    (argon2 : Nat → Nat → Nat → Nat → Bytes → Bytes → Nat → Outcome Bytes)
+    (hA : ∀ ty t m p pwd salt n, argon2 ty t m p pwd salt n ≠ .panic)
+    (s : Str) (pwd : Bytes) : strVerify argon2 s pwd ≠ .panic :=
+  C10.strVerify_never_panics argon2 hA s pwd
+
+/-- `PwHash::from_string(s).to_string()` -/
+theorem reencode_never_panics (s : Str) : reencode s ≠ .panic := C10.reencode_never_panics s
+
+/-- allocation bound: the only heap values the parser produces from attacker text are the two
+base64-decoded byte strings, and each holds at most 3/4 of the input string's length (every
+`$`-segment is a sub-slice of the input, `splitOn_length`; the costs are `u32`s, `C10.parse_ok_range`) -/
+theorem parse_alloc_bound (s : Str) (r : Parsed) (h : parse s = .ok r) :
+    (∀ salt, r.salt = some salt → 4 * salt.length ≤ 3 * s.length) ∧
+    (∀ hash, r.pwhash = some hash → 4 * hash.length ≤ 3 * s.length) :=
+  Model.PwhashStr.parse_ok_alloc h
+
+/-- the segments the parser iterates over are never longer than the input -/
+theorem parse_segments_bound (s : Str) : ∀ seg ∈ splitOn '$' s, seg.length ≤ s.length :=
+  Model.PwhashStr.splitOn_length '$' s
+
+end PwhashStr
+
+/-! ## serde (re-exported from C16): any sequence or byte-string encoding, any expected length -/
+
+theorem deFixed_never_panics (n : Nat) (enc : Model.Encoding.Enc) : Model.Encoding.deFixed n enc ≠ .panic :=
+  C16.deFixed_never_panics n enc
+
+/-- resizable containers: always `Ok` of the payload -/
+theorem deHeap_never_panics (enc : Model.Encoding.Enc) : Model.Encoding.deHeap enc ≠ .panic := by
+  rw [C16.deHeap_spec]; simp
 
 end DryocVerif.Properties.C04
